@@ -130,7 +130,7 @@ pub struct Expect {
     pub unreadable: bool,
 }
 
-fn clean(p: &str) -> String {
+pub(crate) fn clean(p: &str) -> String {
     let abs = p.starts_with('/');
     let mut out: Vec<&str> = vec![];
     for c in p.split('/') {
@@ -837,7 +837,22 @@ pub fn gen_trace(seed: u64, tier: Tier) -> RecorderTrace {
         let big = r.chance(1, 12);
         let (so, se) = if big {
             labels.push("BIG-OUTPUT".into());
-            (vec![b'o'; 200_000 + r.idx(1000)], vec![b'e'; 150_000 + r.idx(1000)])
+            // (half of the time text with multi-byte characters at every alignment: whatever size the reads
+            // of the pipe have, some of them end inside a character)
+            if r.chance(1, 2) {
+                let unit = ["a\u{e9}", "\u{4e16}\u{754c}x", "\u{1f600}", "ab\u{fc}\u{20ac}"][r.idx(4)];
+                let shift = "z".repeat(r.idx(4));
+                let mk = |n: usize| -> Vec<u8> {
+                    let mut v = shift.clone();
+                    while v.len() < n {
+                        v.push_str(unit);
+                    }
+                    v.into_bytes()
+                };
+                (mk(14_000 + r.idx(200_000)), mk(9_000 + r.idx(150_000)))
+            } else {
+                (vec![b'o'; 200_000 + r.idx(1000)], vec![b'e'; 150_000 + r.idx(1000)])
+            }
         } else {
             (r.pick(&pool[..]).to_vec(), r.pick(&pool[..]).to_vec())
         };
